@@ -662,6 +662,13 @@ def _run_uniform(case, ck, info):
             if not (p == 0 and lp == -INF):
                 _viol(ck, "zero-outside-support", "%s: prob(%r)=%r "
                       "lnprob=%r outside the support" % (what, x, p, lp))
+        # "not a number" is not a point of the support
+        x = float("nan")
+        p, lp = pr.prob(x), pr.lnprob(x)
+        ck.trans += 2
+        if not (p == 0 and lp == -INF):
+            _viol(ck, "zero-outside-support", "%s: prob(nan)=%r lnprob(nan)"
+                  "=%r" % (what, p, lp))
         _check_scale(ck, pr, inside + outside + [gv], what)
         acc.append((gname, repr(gv), repr(pr.scale_factor),
                     [repr(d) for d in dens]))
@@ -832,6 +839,9 @@ def _run_bgauss(case, ck, info):
     if math.isfinite(lo) and math.isfinite(hi):
         pts += [lo + (hi - lo) / 3, lo + 2 * (hi - lo) / 3]
     dens = _check_gauss_density(ck, pr, mu, sd, pts, what, lo, hi)
+    if math.isfinite(lo) or math.isfinite(hi):
+        # "not a number" is not a point of a bounded support
+        _check_gauss_density(ck, pr, mu, sd, [float("nan")], what, lo, hi)
     _check_scale(ck, pr, pts + [g], what)
     # real generator, large n only (sizes None/1/n with scripted answers are
     # in the dedicated bgauss:* block cases)
